@@ -229,6 +229,33 @@ func genNamedCycle(r *hx.Rng) *gScen {
 	return g.sc
 }
 
+// a holder that is created first (its name sorts first) with by-name points to BOTH members of a by-name cycle, one member
+// substituted at initialisation: which member is created first — the order of the holder's own points — decides whether the
+// start succeeds; on the library that order is the declaration order, whatever any map enumerates (seed C10L)
+func genGatewayCycle(r *hx.Rng) *gScen {
+	g := newBuilder(r)
+	plain := func(u utInfo) bool { return !u.pp && !u.runner && !u.closer && !u.lazy }
+	gw := g.addNode(g.randType(plain), false)
+	g.sc.nodes[gw].cust = "a-gateway"
+	x := g.addNode(g.randType(plain), false)
+	y := g.addNode(g.randType(plain), false)
+	g.sc.nodes[x].cust, g.sc.nodes[y].cust = "xm", "yn"
+	if r.P(1, 2) {
+		g.sc.nodes[x].cust, g.sc.nodes[y].cust = "yn", "xm"
+	}
+	g.edgeByName(x, y, false)
+	g.edgeByName(y, x, false)
+	if r.P(1, 2) {
+		g.edgeByName(gw, x, false)
+		g.edgeByName(gw, y, false)
+	} else {
+		g.edgeByName(gw, y, false)
+		g.edgeByName(gw, x, false)
+	}
+	g.sc.nodes[[]int{x, y}[r.Intn(2)]].after = 2
+	return g.sc
+}
+
 func gpermCorpus(w *hx.Writer) {
 	// the representative of known finding D6: cycle 1↔2 entered through a slice of holder 0, node 1 substituted at initialisation
 	sc := &gScen{rankSeed: 11}
@@ -300,6 +327,15 @@ func gpermGen(rng *hx.Rng, n int, tier string, w *hx.Writer) {
 	}
 	// (drawn after everything else) the same runner chains with Orders further apart than MaxInt: MinInt next to negative
 	// Orders, MaxInt next to positive ones — a comparator that subtracts overflows there and no longer orders them
+	r9g := rng.Fork()
+	defer func() {
+		// (drawn after everything else) a first-created holder of both members of a substituted by-name cycle, more natural starts
+		for i := 0; i < n/60+3; i++ {
+			if active() {
+				runPermGroup(genGatewayCycle(r9g.Fork()), k, nat+8, []string{"gatewaycycle"}, w)
+			}
+		}
+	}()
 	r9x := rng.Fork()
 	for i := 0; i < n/50+2; i++ {
 		if active() {
